@@ -17,8 +17,24 @@ sys.path.insert(0, os.path.join(ROOT, "spec"))
 REPO = os.environ.get("VERIF_DEV_REPO", "/repo")     # the override is for developing harnesses against a scratch worktree only; registered commands never set it
 
 
+# Seeded-mutant regression runs (development only) set VERIF_EVIDENCE_DIR to a scratch directory so that the committed evidence
+# files always describe a run on the unchanged tree; registered commands never set it.
+EVIDENCE_DIR = os.environ.get("VERIF_EVIDENCE_DIR") or os.path.join(ROOT, "evidence")
+
+
 class Inconclusive(Exception):
     pass
+
+
+def repo_state():
+    """HEAD and cleanliness of the tree the encodings were generated from (recorded in every evidence file)"""
+    import subprocess
+    try:
+        head = subprocess.run(["git", "-C", REPO, "rev-parse", "--short", "HEAD"], capture_output=True, text=True, timeout=20).stdout.strip()
+        dirty = subprocess.run(["git", "-C", REPO, "status", "--porcelain", "--untracked-files=no"], capture_output=True, text=True, timeout=20).stdout.strip()
+        return {"head": head, "modified_files": [l[3:] for l in dirty.splitlines()][:20]}
+    except Exception as e:  # noqa
+        return {"head": "unknown", "modified_files": [], "error": str(e)[:100]}
 
 
 def args_for(prop):
@@ -127,6 +143,7 @@ class Report:
             "exhaustive": False,
         }
         cov.update(self.extra)
+        cov["repo_tree"] = repo_state()
         ev = {
             "property_id": self.prop,
             "tier": self.args.tier,
@@ -137,19 +154,19 @@ class Report:
             "wall_s": round(wall, 2),
             "violations": len(self.violations),
         }
-        os.makedirs(os.path.join(ROOT, "evidence"), exist_ok=True)
-        tmp = os.path.join(ROOT, "evidence", "%s.json.tmp" % self.prop)
+        os.makedirs(EVIDENCE_DIR, exist_ok=True)
+        tmp = os.path.join(EVIDENCE_DIR, "%s.json.tmp" % self.prop)
         with open(tmp, "w") as f:
             json.dump(ev, f, ensure_ascii=False, indent=1, default=str)
-        os.replace(tmp, os.path.join(ROOT, "evidence", "%s.json" % self.prop))
+        os.replace(tmp, os.path.join(EVIDENCE_DIR, "%s.json" % self.prop))
         if self.violations:
             print("%s: %d violation(s), %d obligations, %.1fs" % (self.prop, len(self.violations), n_obl, wall))
             return 1
         if self.inconclusive:
             print("%s: INCONCLUSIVE (%s), %d obligations, %.1fs" % (self.prop, "; ".join(map(str, self.inconclusive))[:600], n_obl, wall))
             return 2
-        print("%s: held on everything explored: %d obligations (%d non-trivial), %d queries, %d replays, %.1fs" % (
-            self.prop, n_obl, len(nontrivial), self.queries, self.replays, wall))
+        print("%s: held on everything explored: %d obligations (%d non-trivial), %d queries, %d replays, %d translator-validation cases, %.1fs" % (
+            self.prop, n_obl, len(nontrivial), self.queries, self.replays, self.tv_cases, wall))
         return 0
 
 
